@@ -52,18 +52,25 @@ def _scenarios(tier, fams, rnd):
     """fams: {family: constraints}. Scenario parameters (MBT inputs)."""
     sc = []
     srs = [(rnd.randrange(2, R), rnd.randrange(1, R), rnd.randrange(1, R)) for _ in range(2)]
+    ALL = list(range(1, 15))
+    # "big" (2100 constraints, domain 4096) and "huge" (4200, domain 8192) lie beyond
+    # the 2^12 switch of the FFT / parallel code paths: both sides are always covered
     if tier == "quick":
-        plan = [("tiny", 3, [1]), ("arith", 3, [1, None]), ("widgets", 3, [None]), ("arith", 2, [R - 1])]
-        fresh = [("tiny", 3), ("arith", 3), ("widgets", 3), ("arith", 2)]
+        plan = [("tiny", 3, [1], ALL), ("arith", 3, [1, None], ALL), ("widgets", 3, [None], ALL),
+                ("arith", 2, [R - 1], ALL), ("big", 3, [None], [1, 2, 4, 6, 8, 10, 13])]
+        fresh = [("tiny", 3), ("arith", 3), ("widgets", 3), ("arith", 2), ("big", 3)]
     else:
-        plan = [(f, 3, [1, None, R - 1]) for f in ("tiny", "arith", "widgets", "ecc", "mixed")] + \
-               [(f, 2, [None]) for f in ("arith", "widgets")]
-        fresh = [(f, v) for f in ("tiny", "arith", "widgets", "ecc", "mixed") for v in (3, 2)]
-    for i, (fam, version, deltas) in enumerate(plan):
+        plan = [(f, 3, [1, None, R - 1], ALL) for f in ("tiny", "arith", "widgets", "ecc", "mixed")] + \
+               [(f, 2, [None], ALL) for f in ("arith", "widgets")] + \
+               [("big", 3, [1, None], ALL), ("big", 2, [None], [2, 4, 6, 8, 11, 14]),
+                ("huge", 3, [None], [1, 2, 4, 6, 8, 9, 12])]
+        fresh = [(f, v) for f in ("tiny", "arith", "widgets", "ecc", "mixed", "big") for v in (3, 2)] + \
+                [("huge", 3)]
+    for i, (fam, version, deltas, draws) in enumerate(plan):
         if fam not in fams:
-            continue
+            raise vlib.ToolError("circuit family %s is not known to the harness" % fam)
         tau, sg, sh = srs[i % len(srs)]
-        for k in range(1, 15):
+        for k in draws:
             for dl in deltas:
                 delta = dl if dl is not None else rnd.randrange(2, R)
                 stream = [rnd.randrange(0, R) for _ in range(14)]
